@@ -59,27 +59,49 @@ func New(id, tier string) *Reporter {
 	seed, _ := strconv.ParseInt(os.Getenv("VERIF_SEED"), 10, 64)
 	r := &Reporter{ID: id, Tier: tier, Seed: seed, start: time.Now(), known: map[string]Finding{},
 		seenSig: map[string]bool{}, Extra: map[string]any{}, Exhaustive: true, Assumptions: []string{}, Samples: []any{}}
-	f, err := os.Open(filepath.Join(VerifRoot, "KNOWN_FINDINGS.jsonl"))
+	// KNOWN_FINDINGS.txt, one entry per line, never written at run time:
+	//   known: property=<id> sig="<signature>" <what fails>
+	//   fixed: property=<id> <commit> <what failed>        (suppresses nothing)
+	f, err := os.Open(filepath.Join(VerifRoot, "KNOWN_FINDINGS.txt"))
 	if err == nil {
 		defer f.Close()
 		sc := bufio.NewScanner(f)
 		sc.Buffer(make([]byte, 1<<20), 1<<20)
 		for sc.Scan() {
 			line := strings.TrimSpace(sc.Text())
-			if line == "" || strings.HasPrefix(line, "#") {
+			if !strings.HasPrefix(line, "known: property=") {
 				continue
 			}
-			var fd Finding
-			if err := json.Unmarshal([]byte(line), &fd); err != nil {
-				fmt.Fprintf(os.Stderr, "bad KNOWN_FINDINGS line: %v\n", err)
+			rest := strings.TrimPrefix(line, "known: property=")
+			pid, rest, _ := strings.Cut(rest, " ")
+			if pid != id {
+				continue
+			}
+			rest = strings.TrimSpace(rest)
+			if !strings.HasPrefix(rest, "sig=\"") {
+				fmt.Fprintf(os.Stderr, "bad KNOWN_FINDINGS line: %s\n", line)
 				os.Exit(2)
 			}
-			if fd.Kind == "known" && fd.Property == id {
-				r.known[fd.Signature] = fd
+			rest = rest[5:]
+			i := strings.Index(rest, "\" ")
+			if i < 0 {
+				fmt.Fprintf(os.Stderr, "bad KNOWN_FINDINGS line: %s\n", line)
+				os.Exit(2)
 			}
+			r.known[rest[:i]] = Finding{Kind: "known", Property: pid, Signature: rest[:i], What: strings.TrimSpace(rest[i+2:])}
 		}
 	}
 	return r
+}
+
+// Count adds to the coverage counters; safe for concurrent use.
+func (r *Reporter) Count(states, transitions, evals, nontrivial int64) {
+	r.mu.Lock()
+	r.States += states
+	r.Transitions += transitions
+	r.Evaluations += evals
+	r.Nontrivial += nontrivial
+	r.mu.Unlock()
 }
 
 // Quick reports whether this is the quick tier.
